@@ -146,6 +146,10 @@ impl BinaryWriter {
                 }),
             };
             for (_segment_name, segment) in segments {
+                // A segment that nothing was written to has no place in the image: its (empty) range must not extend the bank
+                if segment.range().is_empty() {
+                    continue;
+                }
                 bank.merge(segment);
             }
             if let Some(size) = bank_options.size {
